@@ -353,7 +353,18 @@ def fromVecTyped {α : Type} (L : LeafCodec α) (e : Entry) (bs : Bytes) : Typed
     | none => .err
     | some (v, rest) => if rest.isEmpty then .ok v else .panic
 
-/-! ### length-framed stream (`msgs::write`, `write_vec`, `read`, `read_message`, `read_raw`) -/
+/-! ### length-framed stream (`msgs::write`, `write_vec`, `read`, `read_message`, `read_raw`)
+
+The readers below are functions of the *byte string* of the stream.  How a transport slices that
+string into `read()` calls (a serial port or socket may return fewer bytes than asked for although the
+rest of the frame follows) is NOT modelled: the real readers use `read_exact` / `read_to_limit`, which
+loop until the requested bytes have arrived, and the model identifies "the next n bytes of the stream"
+with what such a loop yields.  That every reader entry point (`read`, `read_message`, `read_raw`,
+`from_reader`, the serial header readers) returns the same result and leaves the stream at the same
+position whatever the delivery granularity is therefore covered by the correspondence harness only
+(`Chunked` reader: at most k bytes per call, k ∈ {1, 2, 7, 64, 1000, len-1} and a mixed schedule, two
+frames back to back; monitors `framed-short-read-rejected`, `stream-desynchronised`,
+`chunked-read-differs`), not by the theorems `C19_framed*`. -/
 
 /-- `write_vec` / `write`: u32 BE length (`buf.len() as u32`) + bytes -/
 def writeVec (bs : Bytes) : Bytes := beBytes 4 bs.length ++ bs
